@@ -54,16 +54,16 @@ Section Ext.
   Lemma exec_ext : forall fuel s en, exec1 fuel s en = exec2 fuel s en.
   Proof.
     induction fuel as [|f IH]; intros s en; [reflexivity|].
-    destruct s as [e|m x e|body|c t e|c body|]; cbn [exec]; try reflexivity.
+    destruct s as [e|m x e|body|c t e|c body| | |]; cbn [exec]; try reflexivity.
     - rewrite eval_ext. reflexivity.
     - rewrite eval_ext. reflexivity.
     - generalize (push V en). induction body as [|s1 r IHr]; intros en0; [reflexivity|].
-      rewrite IH. destruct (exec2 f s1 en0) as [[en1|er]|]; try reflexivity. apply IHr.
+      rewrite IH. destruct (exec2 f s1 en0) as [[en1|en1|en1|er]|]; try reflexivity. apply IHr.
     - rewrite eval_ext. destruct (eval2 c en) as [[vc|er] en1]; [|reflexivity].
       rewrite Htr. destruct (truthy' vc); [apply IH|]. destruct e; [apply IH|reflexivity].
     - rewrite eval_ext. destruct (eval2 c en) as [[vc|er] en1]; [|reflexivity].
       rewrite Htr. destruct (truthy' vc); [|reflexivity].
-      rewrite IH. destruct (exec2 f body en1) as [[en2|er]|]; try reflexivity. apply IH.
+      rewrite IH. destruct (exec2 f body en1) as [[en2|en2|en2|er]|]; try reflexivity; apply IH.
   Qed.
 
   Lemma run_source_ext fuel body final :
@@ -74,8 +74,8 @@ Section Ext.
     assert (Hl : forall l en, exec_list V bop uop bsem usem typeof_sem truthy nullish vundef vnull vbool vint vstr fuel l en
                               = exec_list V bop uop bsem' usem' typeof_sem' truthy' nullish vundef vnull vbool vint vstr fuel l en).
     { induction l as [|s1 r IHr]; intros en; [reflexivity|]. cbn [exec_list]. rewrite exec_ext.
-      destruct (exec2 fuel s1 en) as [[en1|er]|]; try reflexivity. apply IHr. }
-    rewrite Hl. destruct (exec_list _ _ _ _ _ _ _ _ _ _ _ _ _ fuel body [[]]) as [[en1|er]|]; try reflexivity.
+      destruct (exec2 fuel s1 en) as [[en1|en1|en1|er]|]; try reflexivity. apply IHr. }
+    rewrite Hl. destruct (exec_list _ _ _ _ _ _ _ _ _ _ _ _ _ fuel body [[]]) as [[en1|en1|en1|er]|]; try reflexivity.
     rewrite eval_ext. reflexivity.
   Qed.
 End Ext.
